@@ -306,43 +306,87 @@ def refine(body):
 # ---- tiny term parser / linear normaliser ------------------------------------------
 
 def parse_term(s):
-    """'Ne(Add(f(x), 1_usize), g(y))' -> ('Ne', [('Add', [('f', [atom x]), atom]), ...]); atoms are strings."""
-    pos = [0]
+    """'Ne(Add(f(x), 1_usize), g(y))' -> ('Ne', [('Add', [('f', ['x']), '1_usize']), ('g', ['y'])]).
 
-    def parse():
-        start = pos[0]
-        depth_angle = 0
-        while pos[0] < len(s):
-            c = s[pos[0]]
+    Atoms are strings: plain names, parenthesised projections `(x as V).0`, aggregates `Name{..}`,
+    and calls followed by a projection `f(x).1`.
+    """
+    n = len(s)
+
+    def skip_balanced(i, open_ch, close_ch):
+        depth = 0
+        while i < n:
+            c = s[i]
+            if c == open_ch:
+                depth += 1
+            elif c == close_ch:
+                depth -= 1
+                if depth == 0:
+                    return i + 1
+            i += 1
+        return n
+
+    def trailing(i):
+        """consume `.field` / ` as X` suffixes up to a top-level ',' or ')'"""
+        while i < n and s[i] not in ",)":
+            if s[i] == "(":
+                i = skip_balanced(i, "(", ")")
+            elif s[i] == "{":
+                i = skip_balanced(i, "{", "}")
+            else:
+                i += 1
+        return i
+
+    def parse(i):
+        while i < n and s[i] == " ":
+            i += 1
+        start = i
+        if i < n and s[i] == "(":
+            j = trailing(skip_balanced(i, "(", ")"))
+            return s[start:j].strip(), j
+        angle = 0
+        while i < n:
+            c = s[i]
             if c == "<":
-                depth_angle += 1
+                angle += 1
             elif c == ">":
-                depth_angle -= 1
-            elif depth_angle <= 0 and c in "(),":
+                angle -= 1
+            elif angle <= 0 and c in "(),{":
                 break
-            pos[0] += 1
-        head = s[start:pos[0]].strip()
-        if pos[0] < len(s) and s[pos[0]] == "(":
-            pos[0] += 1
+            i += 1
+        if i < n and s[i] == "{":
+            j = trailing(skip_balanced(i, "{", "}"))
+            return s[start:j].strip(), j
+        head = s[start:i].strip()
+        if i < n and s[i] == "(" and head:
+            i += 1
             args = []
-            if s[pos[0]] == ")":
-                pos[0] += 1
-                return (head, args)
-            while True:
-                args.append(parse())
-                if pos[0] >= len(s):
+            while i < n and s[i] == " ":
+                i += 1
+            if i < n and s[i] == ")":
+                i += 1
+            else:
+                while True:
+                    a, i = parse(i)
+                    args.append(a)
+                    if i >= n:
+                        break
+                    if s[i] == ",":
+                        i += 1
+                        continue
+                    if s[i] == ")":
+                        i += 1
+                        break
                     break
-                if s[pos[0]] == ",":
-                    pos[0] += 1
-                    continue
-                if s[pos[0]] == ")":
-                    pos[0] += 1
-                    break
-            return (head, args)
-        return head
+            if i < n and s[i] not in ",)":
+                j = trailing(i)
+                return s[start:j].strip(), j
+            return (head, args), i
+        return head, i
     try:
-        return parse()
-    except IndexError:
+        r, _ = parse(0)
+        return r
+    except (IndexError, RecursionError):
         return s
 
 
